@@ -647,6 +647,90 @@ fn edit_case(sh: &mut Shard, tape: &[u32]) -> Result<(), Violation> {
     check_edit(&edited_text, &family, &site, &label, inputs)
 }
 
+// ------------------------------------------------------------------------------------------ (d)
+
+/// Fault x position x context matrix (exhaustive): a fault the checker rejects at the reference position
+/// (`PRINT <fault>` at module level) must be rejected - same error, in the faulty statement - wherever it is placed.
+fn placement_matrix(sh: &mut Shard) {
+    use crate::props::faults;
+    let np = faults::pairs();
+    for k in 0..np {
+        if !sh.mine(k as u64) {
+            continue;
+        }
+        let (fault, plabel, stmt, refk) = faults::pair(k);
+        let (_, _, ref_stmt, _) = faults::pair(refk);
+        let rc = faults::place(&ref_stmt, 0).unwrap();
+        sh.eval();
+        let ref_class = match impl_run::front(&rc.text) {
+            Ok(_) => {
+                // not a fault for this checker: then it must at least be sound
+                if k == refk {
+                    let inputs = json!({"kind": "soundness", "program": rc.text});
+                    if let Ok(out) = impl_run::run_src(&rc.text, &RunOpts::budget(100_000)) {
+                        let r = match &out.end {
+                            End::Err { code: Some(13), pos, .. } => Err(Violation::new(format!("c12-type-mismatch-at-runtime:{}", fault), "an accepted ill-typed expression raised Type mismatch (13) at run time", inputs).exp_obs("rejected by the checker, or no Type mismatch", json!(pos))),
+                            End::Panic(p) if WRONG_KIND.iter().any(|w| p.msg.contains(w)) => Err(Violation::new(format!("c12-wrong-kind:{}", p.sig()), "an accepted program applied an operator or built-in to an operand of the wrong kind", inputs).exp_obs("no wrong-kind failure", json!({"panic": p.msg}))),
+                            _ => Ok(()),
+                        };
+                        if !sh.report(r) {
+                            return;
+                        }
+                    }
+                }
+                sh.discard("fault template accepted at the reference position (not ill-typed for this checker)");
+                continue;
+            }
+            Err(FrontErr::Panic { .. }) => {
+                sh.discard("reference makes the parser/checker panic (C07)");
+                continue;
+            }
+            Err(e) => {
+                if !e.class().starts_with("lint:") {
+                    sh.discard("fault template is a syntax error");
+                    continue;
+                }
+                e.class()
+            }
+        };
+        for ctx in 0..faults::CONTEXTS.len() {
+            let Some(case) = faults::place(&stmt, ctx) else { continue };
+            sh.eval();
+            sh.journal(&case.text);
+            let inputs = json!({"kind": "placement", "program": case.text, "fault": fault, "position": plabel, "context": faults::CONTEXTS[ctx], "rows": [case.rows.0, case.rows.1], "reference_class": ref_class, "reference": rc.text});
+            let r = check_placement(&case.text, case.rows, &ref_class, &plabel, faults::CONTEXTS[ctx], inputs);
+            sh.class(&format!("placement-context:{}", faults::CONTEXTS[ctx]));
+            sh.nontrivial(hash64(&case.text));
+            if !sh.report(r) {
+                return;
+            }
+        }
+    }
+    sh.exhaustive("74 ill-typed expressions x every expression position of their type (27 numeric, 17 string) + 22 ill-typed statements, each in 16 statement contexts");
+}
+
+fn check_placement(text: &str, rows: (u32, u32), ref_class: &str, plabel: &str, ctx: &str, inputs: Value) -> Result<(), Violation> {
+    let pos_key = plabel.split(':').next().unwrap_or("");
+    match impl_run::front(text) {
+        Ok(_) => Err(Violation::new(format!("c12-placement-accepted:{}:{}", pos_key, ctx), "an ill-typed expression/statement that is rejected at the reference position is accepted at another position", inputs).exp_obs(ref_class, "accepted")),
+        Err(FrontErr::Panic { stage, info }) => Err(Violation::new(format!("panic:{}:{}", stage, info.sig()), "the placed fault made the parser/checker panic", inputs)),
+        Err(e) => {
+            let cls = e.class();
+            let fam = |c: &str| -> &'static str {
+                if c.ends_with("TypeMismatch") { "type" } else if c.ends_with("ArgumentCountMismatch") { "count" } else { "other" }
+            };
+            if cls != ref_class && fam(&cls) != fam(ref_class) || (fam(&cls) == "other" && cls != ref_class) {
+                return Err(Violation::new(format!("c12-placement-family:{}:{}", pos_key, ctx), "the placed fault is rejected with an error of another family than at the reference position", inputs).exp_obs(ref_class, e.to_json()));
+            }
+            let (r, _) = e.pos().unwrap_or((0, 0));
+            if r < rows.0 || r > rows.1 {
+                return Err(Violation::new(format!("c12-placement-position:{}:{}", pos_key, ctx), "the error is not located in the faulty statement", inputs).exp_obs(json!({"rows": [rows.0, rows.1]}), e.to_json()));
+            }
+            Ok(())
+        }
+    }
+}
+
 impl Prop for C12 {
     fn id(&self) -> &'static str {
         "C12"
@@ -658,6 +742,7 @@ impl Prop for C12 {
         vec!["error families: string operand -> {TypeMismatch, ArgumentTypeMismatch}; extra argument -> ArgumentCountMismatch; by-reference type -> {ArgumentTypeMismatch, TypeMismatch}; duplicate -> DuplicateDefinition; NEXT -> NextWithoutFor", "undefined labels are covered by C11's fault injection"]
     }
     fn run(&self, sh: &mut Shard) {
+        placement_matrix(sh);
         let n = sh.share(sh.tier.pick(8_000, 300_000));
         sh.search(1, n, 60, 600, |sh, tape| soundness_case(sh, tape));
         let n = sh.share(sh.tier.pick(6_000, 200_000));
@@ -678,6 +763,7 @@ impl Prop for C12 {
                     },
                 }
             }
+            "placement" => check_placement(inputs["program"].as_str().unwrap_or(""), (inputs["rows"][0].as_u64().unwrap_or(0) as u32, inputs["rows"][1].as_u64().unwrap_or(0) as u32), inputs["reference_class"].as_str().unwrap_or(""), inputs["position"].as_str().unwrap_or(""), inputs["context"].as_str().unwrap_or(""), inputs.clone()),
             "rename" => check_rename(inputs["original"].as_str().unwrap_or(""), inputs["renamed"].as_str().unwrap_or(""), inputs["what"].as_str().unwrap_or("replay")).map(|_| ()),
             "edit" => {
                 let fam: Vec<String> = inputs["family"].as_array().map(|a| a.iter().filter_map(|x| x.as_str().map(|s| s.to_string())).collect()).unwrap_or_default();
